@@ -571,3 +571,185 @@ Proof. exact PREFIX.C08_Prefix_spec. Qed.
 Print Assumptions C08_Prefix_spec.
 End TR_PREFIX.
 (* ---- end extend-c08b ---- *)
+
+(* ---- IpHeaders (extend-c08c) ---- *)
+(* enum IpHeaders { Ipv4(Ipv4Header, Ipv4Extensions), Ipv6(Ipv6Header, Ipv6Extensions) }: model
+   Roundtrip/IpHeaders.v, COMPOSED of the models above (Ipv4Header, Ipv6Header, IpAuthHeader /
+   Ipv4Extensions) and of property C12's (ExtChain/Model.v: Ipv6Extensions; ExtChain/ReadModel.v:
+   Ipv6Extensions::read_limited; IoFault/Model.v: LimitedReader).  Lemmas: Roundtrip/IpHeadersProofs.v.
+   The chain bookkeeping itself (set_next_headers links in RFC order, write <=> walk for the
+   extensions alone) is C12's (C12_write_iff_walk, C12_link_walks), cited through the lemmas. *)
+From EP Require Roundtrip.Ipv6 Roundtrip.Auth Roundtrip.Exts4 Roundtrip.IpHeaders Roundtrip.IpHeadersProofs.
+From EP Require ExtChain.Spec ExtChain.Model Roundtrip.Exts6Proofs.
+Module IPHEADERS.
+Import Checksum.Model Roundtrip.Ipv4 Roundtrip.Ipv6 Roundtrip.Auth Roundtrip.Exts4.
+Import Roundtrip.IpHeaders Roundtrip.IpHeadersProofs.
+
+(* For every well-formed value (iph_wf: parts in range; chain linked from the IP header's protocol /
+   next_header field to a non-extension number -- IPv4: AH present <=> protocol = 51; length field covers
+   the headers) and every endianness of the checksum code:
+   * write succeeds and emits exactly header_len bytes;
+   * from_slice AND the version-specific decoder, given those bytes followed by ANY payload of the
+     announced length (iph_payload_fits: header_len + len payload = total_len resp. 40 + payload_length;
+     IPv6 payload_length 0: everything up to the slice end) and ANY bytes t behind the announced packet,
+     return the written value (iph_written: header checksum as recomputed by Ipv4Header::write, option /
+     ICV buffers zero behind the visible part; IPv6: the value itself), the final protocol number, the
+     fragmentation flag, the len source and exactly the payload (t is cut off);
+   * read over a Cursor returns the same value and number and leaves the cursor behind the headers, whatever
+     follows (IPv6: iph_read_room = the bytes the LimitedReader may be asked for are there, hypothesis
+     of C12's read_limited theorems; nothing for IPv4). *)
+Theorem C08_IpHeaders_dec_enc : forall en h, iph_wf h = true ->
+  exists w, iph_write en h = (w, ExtChain.Model.Ok tt) /\ len w = iph_header_len h
+    /\ (forall payload t, iph_payload_fits h payload t ->
+          iph_from_slice (w ++ payload ++ t) = Ok (iph_written en h, iph_payload_desc h payload)
+          /\ iph_from_version_slice h (w ++ payload ++ t) = Ok (iph_written en h, iph_payload_desc h payload))
+    /\ (forall rest, bytes_ok rest -> iph_read_room h rest ->
+          iph_read (w ++ rest) = Ok (iph_written en h, iph_final h, rest)).
+Proof. exact iph_dec_enc. Qed.
+Print Assumptions C08_IpHeaders_dec_enc.
+
+(* the returned value is EQUAL to h (derive(PartialEq): Ipv4Options / IpAuthHeader compare the visible
+   slices) exactly up to the IPv4 header checksum, which write recomputes: equal when the field was consistent *)
+Theorem C08_IpHeaders_written_eq : forall en h, iph_wf h = true -> iph_checksum_ok en h = true ->
+  iph_eq (iph_written en h) h.
+Proof. exact iph_written_eq. Qed.
+Print Assumptions C08_IpHeaders_written_eq.
+
+(* write = header bytes ++ extension bytes, the IPv4 header with bytes 10-11 := computed checksum *)
+Theorem C08_IpHeaders_ser_agree_v4 : forall en hd e, wf_ip4 hd = true -> wf_x4 e = true ->
+  x4_linked (i4_protocol hd) e = true ->
+  exists ck hb xb, ip4_calc_checksum en hd = Some ck /\ ck < 65536
+    /\ ip4_to_bytes (ip4_set_checksum hd ck) = Some hb /\ len hb = ip4_header_len hd
+    /\ x4_write [] e (i4_protocol hd) = Ok xb /\ len xb = x4_header_len e
+    /\ iph_write en (IpV4 hd e) = (hb ++ xb, ExtChain.Model.Ok tt).
+Proof. exact iph_write_v4. Qed.
+Print Assumptions C08_IpHeaders_ser_agree_v4.
+Theorem C08_IpHeaders_ser_agree_v6 : forall en hd e n, ExtChain.Model.exts6_valid e = true ->
+  ExtChain.Model.next_header e (i6_next_header hd) = ExtChain.Model.Ok n ->
+  exists xb, ExtChain.Model.write e (i6_next_header hd) = (xb, ExtChain.Model.Ok tt)
+    /\ len xb = ExtChain.Model.header_len e /\ bytes_ok xb
+    /\ iph_write en (IpV6 hd e) = (ip6_to_bytes hd ++ xb, ExtChain.Model.Ok tt).
+Proof. exact iph_write_v6. Qed.
+Print Assumptions C08_IpHeaders_ser_agree_v6.
+
+(* write succeeds iff next_header() walks the chain, with the same error (on C12_write_iff_walk for the
+   IPv6 extensions); a successful write emits header_len bytes.  Parts in range, nothing else assumed. *)
+Theorem C08_IpHeaders_write_iff_walk : forall en h, iph_parts_wf h = true ->
+  match iph_next_header h with
+  | ExtChain.Model.Ok n => snd (iph_write en h) = ExtChain.Model.Ok tt /\ len (fst (iph_write en h)) = iph_header_len h
+  | ExtChain.Model.Err x => snd (iph_write en h) = ExtChain.Model.Err x
+  | ExtChain.Model.Panic | ExtChain.Model.OutOfFuel => False
+  end.
+Proof. exact iph_write_iff_walk. Qed.
+Print Assumptions C08_IpHeaders_write_iff_walk.
+
+(* every accepted byte string: the parts are in range, next_header() walks to the reported number, write
+   succeeds with header_len = consumed bytes, bs = consumed ++ payload ++ (bytes behind the announced packet),
+   the written bytes relate to the consumed ones by iph_reencodes = the normalisations already stated for the
+   parts (IPv4: bit 7 of byte 6, bytes 10-11 := computed checksum, AH bytes 2-3; IPv6: header exact,
+   extensions Exts6Proofs.hdr_eq = fragment byte 1 / bits 1-2 of byte 3, AH bytes 2-3), and decoding
+   written ++ payload ++ t again gives the written value and the same payload description -- also for chains
+   on which the decoder stopped in front of a repeated extension header. *)
+Theorem C08_IpHeaders_enc_dec : forall en bs h p, bytes_ok bs -> iph_from_slice bs = Ok (h, p) ->
+  iph_parts_wf h = true /\ iph_next_header h = ExtChain.Model.Ok (ipp_ip_number p)
+  /\ exists w cons t, iph_write en h = (w, ExtChain.Model.Ok tt) /\ len w = iph_header_len h
+      /\ bs = cons ++ ipp_payload p ++ t /\ len cons = iph_header_len h
+      /\ iph_reencodes en h cons w
+      /\ iph_from_slice (w ++ ipp_payload p ++ t) = Ok (iph_written en h, p).
+Proof. exact iph_enc_dec. Qed.
+Print Assumptions C08_IpHeaders_enc_dec.
+
+(* the version-dispatching decoder IS the version-specific one (equal results, errors included) *)
+Theorem C08_IpHeaders_dispatch : forall s b0, rd s 0 = Some b0 ->
+  (shr b0 4 = 4 -> iph_from_slice s = iph_from_ipv4_slice s) /\
+  (shr b0 4 = 6 -> iph_from_slice s = iph_from_ipv6_slice s) /\
+  (shr b0 4 <> 4 -> shr b0 4 <> 6 -> iph_from_slice s = Err (C_UNSUPPORTED_VERSION (shr b0 4))).
+Proof.
+  exact (fun s b0 R => conj (iph_dispatch_v4 s b0 R) (conj (iph_dispatch_v6 s b0 R) (iph_dispatch_other s b0 R))).
+Qed.
+Print Assumptions C08_IpHeaders_dispatch.
+
+(* ---- non-vacuity ---- *)
+(* IPv4 (no options, stale checksum 0) + AH(next 17, ICV 01020304), total_len 40 *)
+Definition ex_v4 : IpHeaders :=
+  IpV4 {| i4_dscp := 0; i4_ecn := 0; i4_total_len := 40; i4_identification := 1; i4_dont_fragment := false;
+          i4_more_fragments := false; i4_fragment_offset := 0; i4_time_to_live := 64; i4_protocol := 51;
+          i4_header_checksum := 0; i4_source := [10; 0; 0; 1]; i4_destination := [10; 0; 0; 2];
+          i4_options := {| i4o_len := 0; i4o_buf := zeros 40 |} |}
+       {| x4_auth := Some {| ah_next_header := 17; ah_spi := 1; ah_sequence_number := 2; ah_raw_icv_len := 1;
+                             ah_raw_icv_buffer := [1; 2; 3; 4] ++ zeros 1012 |} |}.
+Definition ex_v4_bytes : bytes :=
+  [69;0;0;40; 0;1;0;0; 64;51;102;160; 10;0;0;1; 10;0;0;2] ++ [17;2;0;0; 0;0;0;1; 0;0;0;2; 1;2;3;4].
+Example C08_IpHeaders_ex_v4 :
+  iph_wf ex_v4 = true /\ iph_checksum_ok LE ex_v4 = false
+  /\ iph_write LE ex_v4 = (ex_v4_bytes, ExtChain.Model.Ok tt) /\ iph_header_len ex_v4 = 36
+  /\ iph_payload_fits ex_v4 [9; 9; 9; 9] [7]
+  /\ match iph_from_slice (ex_v4_bytes ++ [9; 9; 9; 9] ++ [7]), iph_read (ex_v4_bytes ++ [9; 9; 9; 9] ++ [7]) with
+     | Ok (h, p), Ok (h', n, r) => h = iph_written LE ex_v4 /\ h' = h /\ ipp_ip_number p = 17 /\ n = 17
+                                   /\ ipp_payload p = [9; 9; 9; 9] /\ r = [9; 9; 9; 9; 7]
+     | _, _ => False
+     end.
+Proof. vm_compute. repeat split; reflexivity. Qed.
+
+(* IPv6, payload_length 18: hop-by-hop (8 bytes), fragment (offset 1, M), UDP *)
+Definition ex_v6 : IpHeaders :=
+  IpV6 {| i6_traffic_class := 0; i6_flow_label := 0; i6_payload_length := 18; i6_next_header := 0;
+          i6_hop_limit := 64; i6_source := repeat 1 16; i6_destination := repeat 2 16 |}
+       (ExtChain.Model.mkExts6 (Some (ExtChain.Model.mkRaw 44 0 [1; 2; 3; 4; 5; 6])) None None
+          (Some (ExtChain.Model.mkFrag 17 1 true 1)) None).
+Definition ex_v6_bytes : bytes :=
+  [96;0;0;0; 0;18; 0; 64] ++ repeat 1 16 ++ repeat 2 16 ++ [44;0;1;2;3;4;5;6] ++ [17;0;0;9;0;0;0;1].
+Example C08_IpHeaders_ex_v6 :
+  iph_wf ex_v6 = true /\ iph_write LE ex_v6 = (ex_v6_bytes, ExtChain.Model.Ok tt) /\ iph_header_len ex_v6 = 56
+  /\ iph_payload_fits ex_v6 [9; 9] [7; 7] /\ iph_read_room ex_v6 [9; 9; 7; 7]
+  /\ iph_from_slice (ex_v6_bytes ++ [9; 9] ++ [7; 7])
+     = Ok (ex_v6, {| ipp_ip_number := 17; ipp_fragmented := true; ipp_len_source := LsIpv6HeaderPayloadLen;
+                     ipp_payload := [9; 9] |})
+  /\ iph_read (ex_v6_bytes ++ [9; 9] ++ [7; 7]) = Ok (ex_v6, 17, [9; 9; 7; 7]).
+Proof. vm_compute. repeat split; try reflexivity. discriminate. Qed.
+
+(* accepted bytes with reserved bits set (IPv4 bit 7 of byte 6, wrong checksum; fragment header reserved
+   byte / bits): the hypotheses of C08_IpHeaders_enc_dec hold, write clears them *)
+Example C08_IpHeaders_ex_enc_dec :
+  match iph_from_slice ([69;0;0;24; 0;1;128;0; 64;17;1;2; 10;0;0;1; 10;0;0;2] ++ [9;9;9;9]) with
+  | Ok (h, p) => iph_write LE h = ([69;0;0;24; 0;1;0;0; 64;17;102;210; 10;0;0;1; 10;0;0;2], ExtChain.Model.Ok tt)
+                 /\ ipp_payload p = [9;9;9;9]
+  | _ => False
+  end /\
+  match iph_from_slice ([96;0;0;0; 0;10; 44; 64] ++ repeat 1 16 ++ repeat 2 16 ++ [17;170;0;15;0;0;0;1] ++ [9;9]) with
+  | Ok (h, p) => fst (iph_write LE h)
+                 = [96;0;0;0; 0;10; 44; 64] ++ repeat 1 16 ++ repeat 2 16 ++ [17;0;0;9;0;0;0;1]
+                 /\ ipp_fragmented p = true
+  | _ => False
+  end.
+Proof. vm_compute. repeat split; reflexivity. Qed.
+
+(* write refuses chains that do not walk: routing header nobody announces; AH with protocol 6.  The IP
+   header has gone out before the error (40 / 20 bytes in the Vec). *)
+Example C08_IpHeaders_ex_not_linked :
+  let h6 := IpV6 {| i6_traffic_class := 0; i6_flow_label := 0; i6_payload_length := 8; i6_next_header := 17;
+                    i6_hop_limit := 64; i6_source := repeat 1 16; i6_destination := repeat 2 16 |}
+                 (ExtChain.Model.mkExts6 None None
+                    (Some (ExtChain.Model.mkRouting (ExtChain.Model.mkRaw 17 0 [1; 2; 3; 4; 5; 6]) None)) None None) in
+  iph_parts_wf h6 = true /\ iph_wf h6 = false
+  /\ iph_next_header h6 = ExtChain.Model.Err (ExtChain.Model.Ipv6Exts (ExtChain.Model.ExtNotReferenced 43))
+  /\ snd (iph_write LE h6) = ExtChain.Model.Err (ExtChain.Model.Ipv6Exts (ExtChain.Model.ExtNotReferenced 43))
+  /\ len (fst (iph_write LE h6)) = 40.
+Proof. vm_compute. repeat split; reflexivity. Qed.
+
+(* F15 (known finding of C06) seen from C08: IPv6 payload_length 0 with an extension header.  from_slice reads
+   0 as "up to the end of the slice" and round-trips the value; read hands the 0 to the LimitedReader and fails:
+   such a value is outside iph_wf (header_len of the extensions > payload_length), read is NOT claimed for it *)
+Definition ex_f15 : IpHeaders :=
+  IpV6 {| i6_traffic_class := 0; i6_flow_label := 0; i6_payload_length := 0; i6_next_header := 60;
+          i6_hop_limit := 64; i6_source := repeat 0 16; i6_destination := repeat 0 16 |}
+       (ExtChain.Model.mkExts6 None (Some (ExtChain.Model.mkRaw 17 0 [0; 0; 0; 0; 0; 0])) None None None).
+Example C08_IpHeaders_read_zero_payload_len_refuted :
+  iph_parts_wf ex_f15 = true /\ iph_wf ex_f15 = false /\
+  exists w, iph_write LE ex_f15 = (w, ExtChain.Model.Ok tt)
+    /\ iph_from_slice (w ++ [9; 9]) = Ok (ex_f15, {| ipp_ip_number := 17; ipp_fragmented := false;
+                                                     ipp_len_source := LsSlice; ipp_payload := [9; 9] |})
+    /\ iph_read (w ++ [9; 9]) = Err ELen.
+Proof. split; [reflexivity|]. split; [reflexivity|]. eexists. split; [vm_compute; reflexivity|]. split; vm_compute; reflexivity. Qed.
+End IPHEADERS.
+(* ---- end extend-c08c ---- *)
